@@ -21,8 +21,7 @@ def getitem_rules(model, R):
     p_items = func.params[1]
     p_raw = func.params[2] if len(func.params) > 2 else None
     S = Sorter(func)
-    for name, old, new, node in S.conflicts:
-        R.bad('SORT', func, node, f'{name} has one sort', f'{name}: {old}', f'{name} also bound to {new} in {src(node)[:70]}')
+    # (a name bound to different sorts in different branches is not an error by itself; the unpack orders below are what is decided)
     tries = [s for s in func.body if isinstance(s, ast.Try)]
     if len(tries) != 1:
         raise Unrecognised('try/except/else lookup', func=func, node=func.node)
